@@ -15,6 +15,7 @@ ID = "C05"
 LEVEL = "model_checking"
 DESIGN_REF = "DESIGN.md 5 C05"
 RULE = (
+    "[every assembly is followed by clear + assemble and by backport: the vertex partition must not change] "
     "state space: histories of Mesh.add over all insertion orders (explicit BFS over add-sequences, canonical key = "
     "partition of (operation, corner) by vertex) for each (assembly of 2-4 unit boxes, near-coincidence displacement "
     "0 / 0.4 TOL / 3 TOL, interface states {none, named, merged A->B, merged B->A}^interfaces, name mode, order of "
@@ -227,6 +228,23 @@ def run_case(case):
                 violations.append({"clause": "write-raised", "coords": coords, "detail": f"{type(err).__name__}: {err}"})
         part = frozenset(frozenset(oc for oc in idx if idx[oc] == v) for v in set(idx.values()))
         partitions.setdefault(part, list(order))
+        # the partition is a function of the declarations: assembling the same mesh again gives it again
+        for again in ("clear + assemble", "backport"):
+            try:
+                if again == "backport":
+                    mesh.backport()
+                else:
+                    mesh.clear()
+                    mesh.assemble()
+            except Exception as err:
+                violations.append({"clause": "assemble-raised", "coords": dict(coords, again=again), "detail": f"{type(err).__name__}: {err}"})
+                break
+            transitions += 1
+            idx2 = {(b, c): mesh.blocks[pos].indexes[c] for pos, b in enumerate(order) for c in range(8)}
+            part2 = frozenset(frozenset(oc for oc in idx2 if idx2[oc] == v) for v in set(idx2.values()))
+            if part2 != part:
+                violations.append({"clause": "re-assembly-changes-partition", "coords": dict(coords, again=again), "detail": f"{len(part)} vertices after the first assembly, {len(part2)} after {again}"})
+                break
     if len(partitions) > 1:
         violations.append(
             {
